@@ -179,11 +179,14 @@ class MinGenSet():
                 var_type="integer"
             )
 
+        # pi_vars[(i, j)] = multiplicity * element is at most the number it contributes to, which can exceed
+        # the total when elements may be used more than once
+        pi_ub = max([self.total] + list(self.numbers))
         self.pi_vars = self.solver.add_variables(
             self.x_indexes, 
             name_prefix="pi", 
             lb=0, 
-            ub=self.total, 
+            ub=pi_ub, 
             var_type="integer" if self.weight_type == int else "continuous"
         )
 
@@ -220,7 +223,8 @@ class MinGenSet():
                             continuous_var=self.genset_vars[(i)],
                             product_var=self.pi_vars[(i, j)],
                             lb=0,
-                            ub=self.total,
+                            # this bound also fixes the number of bits of the integer factor: it must cover max_multiplicity
+                            ub=max(self.total, self.max_multiplicity),
                             name=f"pi_i={i}_j={j}",
                         )
 
